@@ -128,10 +128,11 @@ def schedule_replay(ctx, cases, binary, n_graphs, per_graph, seed_offset=2000, l
 
     def gen(fn):
         ci = fn[len("cfg_"):-len(".json")]
-        r = ctx.tlc("OwSimSched", cfg="OwSimSched.cfg", workers=1, timeout=300, simulate="num=%d" % per_graph, depth=2000,
+        # many more behaviours are drawn than are run: the rare shapes (a writer receiving the wrong token and passing
+        # it back; several drain pass-backs) are picked first, the rest fills up
+        r = ctx.tlc("OwSimSched", cfg="OwSimSched.cfg", workers=1, timeout=300, simulate="num=%d" % (per_graph * 40), depth=2000,
                     seed=ctx.seed + int(ci), files=[("config.ndjson", open(os.path.join(cdir, fn)).read())])
-        k = 0
-        seen = set()
+        seen, pool = set(), []
         for ln in r.lines():
             if ln.startswith('"{'):
                 doc = json.loads(json.loads(ln))
@@ -139,10 +140,17 @@ def schedule_replay(ctx, cases, binary, n_graphs, per_graph, seed_offset=2000, l
                 if key in seen:
                     continue
                 seen.add(key)
-                with open(os.path.join(sdir, "sched_%s_%d.ndjson" % (ci, k)), "w") as f:
-                    for e in doc["schedule"]:
-                        f.write(json.dumps(e) + "\n")
-                k += 1
+                evs = doc["schedule"]
+                rank = (-sum(1 for e in evs if e["ev"] == "wpassback"), -sum(1 for e in evs if e["ev"] == "mainpassback"), len(pool))
+                pool.append((rank, evs))
+        rare = sorted(pool)[:max(1, per_graph // 2)]
+        rest = [x for x in pool if x not in rare][:per_graph - len(rare)]
+        k = 0
+        for _, evs in rare + rest:
+            with open(os.path.join(sdir, "sched_%s_%d.ndjson" % (ci, k)), "w") as f:
+                for e in evs:
+                    f.write(json.dumps(e) + "\n")
+            k += 1
         if "Error" in (r.stdout or "") and "violated" in (r.stdout or ""):
             raise Infra("OwSimSched violates an OwSim invariant (specification error):\n" + r.tail(2000))
         return k
